@@ -5978,6 +5978,11 @@ class LazyContainer(dict):
         self._values[index] = parseret
         return parseret
 
+    def get(self, name, default=None):
+        if name in self._struct._subconsindexes:
+            return self[name]
+        return default
+
     def __len__(self):
         return len(self._struct.subcons)
 
